@@ -172,6 +172,16 @@ class RouterInfoCache:
             if _debug: RouterInfoCache._debug("    - no router references: %r", list(self.routers.keys()))
             return
 
+        # if the new net already has router info records the moved ones are
+        # merged in like fresh announcements
+        if (new_snet != old_snet) and (new_snet in self.routers):
+            for address, router_info in self.routers.pop(old_snet).items():
+                for dnet in router_info.dnets:
+                    del self.path_info[(old_snet, dnet)]
+                for dnet, status in router_info.dnets.items():
+                    self.update_router_info(new_snet, address, [dnet], status)
+            return
+
         # move the router info records to the new net
         snet_routers = self.routers[new_snet] = self.routers.pop(old_snet)
 
